@@ -706,7 +706,18 @@ class BuiltinModelLoaderGen(ModelLoaderGen):
             if self._debug_trail == DebugTrail.DISABLE:
                 with state.builder(
                     f"""
-                    value = getter({state.path[-1]!r}, sentinel)
+                    try:
+                        value = getter({state.path[-1]!r}, sentinel)
+                    except TypeError:  # object can have non-callable attribute `get`
+                    """,
+                ):
+                    self._gen_raise_bad_type_error(
+                        state,
+                        f"TypeLoadError(CollectionsMapping, {state.parent.v_data})",
+                        namer=state.parent,
+                    )
+                with state.builder(
+                    f"""
                     if value is sentinel:
                         {on_lookup_error}
                     else:
@@ -719,12 +730,18 @@ class BuiltinModelLoaderGen(ModelLoaderGen):
                         state=state,
                     )
             else:
-                state.builder(
+                with state.builder(
                     f"""
                     try:
                         value = getter({state.path[-1]!r}, sentinel)
+                    except TypeError:  # object can have non-callable attribute `get`
                     """,
-                )
+                ):
+                    self._gen_raise_bad_type_error(
+                        state,
+                        f"TypeLoadError(CollectionsMapping, {state.parent.v_data})",
+                        namer=state.parent,
+                    )
                 self._gen_unexpected_exc_catching(state)
                 with state.builder("else:"):  # noqa: SIM117
                     with state.builder(
